@@ -1,0 +1,147 @@
+//go:build verif
+// +build verif
+
+// Package veriford is verification instrumentation (build tag "verif" only).
+//
+// It makes the iteration order of Go maps, which is otherwise random,
+// controllable and observable: instrumented copies of the library sources
+// (generated at check time, never committed) iterate maps in the order that
+// Keys returns, and every decision is appended to a tape that a checker can
+// read back. Nothing in this package is compiled without the "verif" tag.
+package veriford
+
+import (
+	"fmt"
+	"reflect"
+	"sort"
+	"sync"
+)
+
+// Rec is one recorded ordering decision.
+type Rec struct {
+	Site string
+	Keys []interface{}
+}
+
+var (
+	mu      sync.Mutex
+	enabled bool
+	state   uint64
+	tape    []Rec
+
+	// Render turns a map key or vertex hashcode into a canonical string. It
+	// is only used to get a deterministic base order before permuting.
+	Render = func(k interface{}) string { return fmt.Sprintf("%T:%v", k, k) }
+)
+
+// Reset clears the tape and seeds the permutation source. With on == false
+// Keys and Perm return the native order and record nothing.
+func Reset(seed uint64, on bool) {
+	mu.Lock()
+	defer mu.Unlock()
+	enabled = on
+	state = seed*2685821657736338717 + 1442695040888963407
+	if state == 0 {
+		state = 88172645463325252
+	}
+	tape = nil
+}
+
+// Tape returns the decisions recorded since the last Reset.
+func Tape() []Rec {
+	mu.Lock()
+	defer mu.Unlock()
+	out := make([]Rec, len(tape))
+	copy(out, tape)
+	return out
+}
+
+func next() uint64 {
+	// xorshift64*
+	state ^= state >> 12
+	state ^= state << 25
+	state ^= state >> 27
+	return state * 2685821657736338717
+}
+
+// shuffle permutes idx deterministically from the current state.
+func shuffle(n int, swap func(i, j int)) {
+	for i := n - 1; i > 0; i-- {
+		j := int(next() % uint64(i+1))
+		swap(i, j)
+	}
+}
+
+// Keys returns the keys of map m in the order in which the instrumented
+// range statement at site visits them.
+func Keys(site string, m interface{}) []interface{} {
+	rv := reflect.ValueOf(m)
+	if !rv.IsValid() || rv.Kind() != reflect.Map || rv.Len() == 0 {
+		return nil
+	}
+	mk := rv.MapKeys()
+	keys := make([]interface{}, len(mk))
+	for i, k := range mk {
+		keys[i] = k.Interface()
+	}
+
+	mu.Lock()
+	defer mu.Unlock()
+	if !enabled {
+		return keys
+	}
+	strs := make([]string, len(keys))
+	for i, k := range keys {
+		strs[i] = Render(k)
+	}
+	sort.Sort(&byStr{strs, keys})
+	shuffle(len(keys), func(i, j int) { keys[i], keys[j] = keys[j], keys[i] })
+	rec := make([]interface{}, len(keys))
+	copy(rec, keys)
+	tape = append(tape, Rec{Site: site, Keys: rec})
+	return keys
+}
+
+// Perm permutes n elements (through swap) whose identities are given by id,
+// and records the resulting order of identities.
+func Perm(site string, n int, id func(i int) interface{}, swap func(i, j int)) {
+	mu.Lock()
+	defer mu.Unlock()
+	if !enabled || n == 0 {
+		return
+	}
+	// canonical base order first (insertion sort through swap; n is small)
+	for i := 1; i < n; i++ {
+		for j := i; j > 0 && Render(id(j-1)) > Render(id(j)); j-- {
+			swap(j-1, j)
+		}
+	}
+	shuffle(n, swap)
+	rec := make([]interface{}, n)
+	for i := 0; i < n; i++ {
+		rec[i] = id(i)
+	}
+	tape = append(tape, Rec{Site: site, Keys: rec})
+}
+
+// Record appends an observation (no permutation) to the tape.
+func Record(site string, keys ...interface{}) {
+	mu.Lock()
+	defer mu.Unlock()
+	if !enabled {
+		return
+	}
+	tape = append(tape, Rec{Site: site, Keys: keys})
+}
+
+type byStr struct {
+	s []string
+	k []interface{}
+}
+
+func (b *byStr) Len() int           { return len(b.s) }
+func (b *byStr) Less(i, j int) bool { return b.s[i] < b.s[j] }
+func (b *byStr) Swap(i, j int) {
+	b.s[i], b.s[j] = b.s[j], b.s[i]
+	b.k[i], b.k[j] = b.k[j], b.k[i]
+}
